@@ -68,6 +68,11 @@ AddedPreds(family, decl) == {<<family, decl[i].name>> : i \in {j \in 1..Len(decl
 ImplWhere(family, decl, userWhere) == userWhere \cup AddedPreds(family, decl)
 Additive(family, decl) == \A uw \in SUBSET {<<"user", "T: Default">>} :
     ImplWhere(family, decl, uw) \ uw = ImplWhere(family, decl, {}) /\ uw \subseteq ImplWhere(family, decl, uw)
+\* GroupInvariant: the header (and the whole expansion, as a multiset of impls) is the same whether the field types are
+\* written out or arrive as invisible groups (`$t:ty` fragments of a macro_rules! macro): every family reads types through
+\* the same structural functions, which look inside Type::Group / Type::Paren
+Grouped(decl) == decl          \* grouping changes no parameter, bound or default of the declaration
+GroupInvariant(family, decl) == ImplHeader(family, Grouped(decl)) = ImplHeader(family, decl)
 \* fresh parameters do not collide with the user's
 FreshOk(family, decl) == LET h == ImplHeader(family, decl) IN
     \A i, j \in 1..Len(h.params) : i # j => h.params[i].name # h.params[j].name
